@@ -8,6 +8,8 @@ CONSTANTS
   Frags <- FragsC
   Pfx <- PfxC
   Bases <- BasesC
+  LongLen = 0
+  SigmaLong <- SigmaLongC
   SegLen = 2
 INVARIANTS Recompose CleanParts PlainDid Emit
 CHECK_DEADLOCK FALSE
